@@ -49,6 +49,53 @@ CLAIMED.update({
             "TLA+ design model + TLC schedule export + real-code execution + TLC trace validation (observer)", "7/C23"),
 })
 
+CLAIMED.update({
+    "C01": ("combo(swapfsm+tx)", "model_checking",
+            FSM_TEXT + " For this property (FSM clause): at every claim HTLC the announced opening tx must be known to the chain at depth >= 3/2, contain a good swap output, "
+            "lock the paid invoice's hash, and the invoice amount/payee must be the negotiated ones. Validator clause (engine tx): TLC enumerates all 18,026 abstract opening "
+            "transactions of TxShape.tla (amount x asset x blinding x script classes, duplicates, change = amount, ordering); each is built as a real Bitcoin MsgTx / real blinded "
+            "Elements transaction and judged by the real BitcoinOnChain.ValidateTx / LiquidOnChain.ValidateTx; TxTrace checks accept => SpecValid on every line.",
+            FSM_NOTE + " Validator clause is soundness only (conservative rejections are recorded, not violations); go-elements / secp256k1-zkp primitives are trusted.",
+            "TLA+ design model + TxShape case enumeration; real-code execution; TLC trace validation", "7/C01"),
+    "C02": ("script", "model_checking",
+            "Script.tla is a TLA+ interpreter (state machine + closure) of the protocol's opening-script template under Bitcoin P2WSH rules (BIP141/66/112, CHECKSIG/NOTIF/SIZE/SHA256, "
+            "clean stack) over abstract witness items; TLC checks P_C02 (accept => taker sig + 32-byte preimage, or taker + maker sigs, or maker sig + sequence satisfying CSV N; the three "
+            "wallet witnesses accepted; exact characterisation) on every state of every case (quick 3.3M states), exports every case, and every case is executed on the REAL script "
+            "(SwapData.GetOpeningParams, ParamsToTxScript, Bitcoin/LiquidOnChain.GetOutputScript/CreateOpeningAddress, Get*Witness) by btcd's engine with real signatures; ScriptTrace "
+            "requires engine verdict = interpreter verdict for every case.",
+            "Exhaustive up to witness length 3-4 over 10 item classes, 9 sequence classes around N per chain (1008/10080/60), tx versions 1/2, three flag sets, 31/32/33-byte hash preimages, "
+            "plus seeded random longer stacks. Liquid is judged through its script bytes in a Bitcoin transaction; btcd's engine is the trusted reference for script semantics.",
+            "TLA+ script interpreter + TLC exhaustive cases + btcd engine on the real script + TLC trace validation", "7/C02"),
+    "C03": ("tx", "model_checking",
+            "For accepted opening shapes (taker, preimage) and honest funding results (maker, csv/coop) x back-end (CLN, LND, Liquid) x 5 fee-estimator answers, the real adapters and builders "
+            "run over simulated node RPCs. The broadcast transaction is checked against SpendTx.tla by TLC trace validation: single input = a good swap outpoint, sequence 0/CSV, one wallet "
+            "output (+ explicit fee on Liquid), value = amount - fee, canonical witness, valid iff kind != csv or depth >= CSV (btcd engine, Elements sighash + ECDSA, unblinding, proofs, BIP68 in TLA).",
+            "LWK wallet is not run; the Liquid script evaluation is a three-path evaluator (no Elements script engine offline); quick samples the Liquid taker spends.",
+            "TLA+ SpendTx spec + TLC case enumeration + real builders over fake node RPCs + TLC trace validation", "7/C03"),
+    "C04": ("combo(swapfsm+route)", "model_checking",
+            FSM_TEXT + " For this property (FSM clause): every claim HTLC of a Liquid swap is judged against the persisted anchor, the Liquid tip, invoice CLTV and route limit; legacy swaps must "
+            "create none. Arithmetic / builder clause (engine route): Timelock.tla specifies the policy table, window, invoice and route-builder operators; TLC checks P_C04_* on a design model and "
+            "exports boundary cases (2^32 wraps through a scaled modulus); the real functions, both real Lightning clients over fake nodes and the real Await/Pay Actions must answer as the spec; "
+            "thorough: Apalache proves the margin for all heights.",
+            FSM_NOTE + " The 10021-minute bound is taken from the statement.", "TLA+ design model + Timelock.tla; TLC; real-code execution; trace validation; Apalache lemma", "7/C04"),
+    "C05": ("combo(swapfsm+route)", "model_checking",
+            FSM_TEXT + " For this property (FSM clause): every Bitcoin claim HTLC is judged as payTip + route delay < confirmation height + 1008 with ground-truth heights. Arithmetic clause "
+            "(engine route): the inline Bitcoin checks incl. uint32 wrap and RoutePermits (CLN final+1, LND final+4) are specified in Timelock.tla; the real Actions and clients conform on all "
+            "boundary and random cases; P_C05_margin is evaluated on the real payments x confirmation offsets; the 104 violating boundary tuples are an exact known finding equal to the set TLC "
+            "derives from the spec, so any other tuple is a new violation.",
+            FSM_NOTE + " 'permits' is read as the request's limit (LND CltvLimit).", "TLA+ design model + Timelock.tla; TLC; real-code execution; trace validation; Apalache lemma", "7/C05"),
+    "C08": ("combo(swapfsm+tx)", "model_checking",
+            FSM_TEXT + " For this property (message clause): every opening_tx_broadcasted sent is compared with the wallet broadcast of that swap (txid, vout, invoice hash/amount/expiry/CLTV, blinding "
+            "key presence). Transaction clause (engine tx): the real opening paths (CLN adapter for two lightningd versions, LND adapter, LiquidOnChain over the real ElementsRpcWallet) run against "
+            "simulated wallets over all honest funding layouts; TxTrace checks returned txid = broadcast tx id, returned vout = swap-script output index, announced key unblinds the swap output.",
+            FSM_NOTE + " LWK is not run.", "TLA+ design model + TxShape; TLC; real opening paths over fake node RPCs; trace validation", "7/C08"),
+    "C24": ("route", "model_checking",
+            "Timelock.tla defines Route(backend, invoice, scid, limit) and P_C24_single/channel/peer/amount. TLC proves them on the whole case space (payee, amount, CLTV, channel, spelling, limit, fee/claim). "
+            "Every case runs on the real builders, on the real CLN and LND clients over fake nodes, and on the real claim-payment Action; the sendpay request / SendPaymentRequest that reaches the node is "
+            "validated by TimelockTrace: one call, one hop, MaxParts 1, OutgoingChanIds = [normalised channel], destination = payee = channel peer (LND refuses otherwise), exact invoice amount, hash and secret.",
+            "Nodes are fakes at the RPC boundary; the fee Action at FSM level is covered by the swapfsm engine.", "TLA+ Timelock spec + TLC case export + real clients over fake nodes + TLC trace validation", "7/C24"),
+})
+
 NOT_YET = {}
 
 
@@ -84,6 +131,10 @@ def main():
         engines=[
             dict(name="feeversion", path="engines/feeversion.py", serves_properties=["C30"],
                  kind_free_text="TLA+ functional spec, TLC case enumeration, trace validation of real answers"),
+            dict(name="route", path="engines/route.py", serves_properties=["C24", "C04", "C05"], kind_free_text="Timelock.tla; real route builders, clients and checks"),
+            dict(name="tx", path="engines/tx.py", serves_properties=["C01", "C03", "C08"], kind_free_text="TxShape.tla / SpendTx.tla; real validators and transaction builders"),
+            dict(name="script", path="engines/script.py", serves_properties=["C02"], kind_free_text="Script.tla interpreter; btcd engine on the real script"),
+            dict(name="combo", path="engines/combo.py", serves_properties=["C01", "C04", "C05", "C08"], kind_free_text="joins the FSM-level part with the arithmetic / transaction part"),
             dict(name="swapfsm", path="engines/swapfsm.py", serves_properties=sorted(k for k, v in CLAIMED.items() if v[0] == "swapfsm"),
                  kind_free_text="TLA+ design model of the swap FSMs (PeerSwap.tla) + observer (PeerSwapObs.tla); TLC export; harness/l1; trace validation"),
         ],
